@@ -49,10 +49,7 @@ Explains(r, T, name, ov, v, aid, g) ==
 (* tier 2 follows the code as it is: once-only matching while the finding AssertionFiresOnce is open (ONCE = "1") *)
 ImplOnce == IOEnv.ONCE = "1"
 
-JudgeTest(r, name, ov) ==
-  LET T == Layout(r.prj, name) IN
-  IF ~T.ok THEN <<V(r.id, "stat", "nolayout", "0")>>
-  ELSE
+JudgeWith(r, name, ov, T) ==
   LET id == Ideal(T)
       p  == Path(T)
       m1 == IF id.v = "unspec" THEN ""
@@ -102,9 +99,49 @@ JudgeTest(r, name, ov) ==
                   ELSE <<>>
   IN <<V(r.id, "stat", id.v, ToString(id.i))>> \o verdictRows \o traceRows
 
-RECURSIVE JudgeTests(_, _, _)
-JudgeTests(r, names, k) ==
-  IF k > Len(names) THEN <<>> ELSE JudgeTest(r, names[k], r.obs.tests[k].verdict) \o JudgeTests(r, names, k + 1)
+Alarms(rows) == \E i \in 1..Len(rows) : rows[i].verdict \in {"violation", "drift"}
+JudgeTest(r, name, ov) ==
+  LET T == Layout(r.prj, name) IN
+  IF ~T.ok THEN <<V(r.id, "stat", "nolayout", "0")>>
+  ELSE LET ri == JudgeWith(r, name, ov, T) IN
+       (* deviation TestStartsAtDirectiveAddress: narrow witness = the first byte of the test's body is not where the
+          .test directive stands (a `* =' in front of the first instruction), and the observation is exactly the run
+          that starts at the directive's address *)
+       IF T.entry = T.entry0 \/ ~Alarms(ri) THEN ri
+       ELSE LET r0 == JudgeWith(r, name, ov, [T EXCEPT !.entry = T.entry0]) IN
+            IF Alarms(r0) \/ (\E i \in 1..Len(r0) : r0[i].verdict = "deviation") THEN ri
+            ELSE <<V(r.id, "stat", Ideal(T).v, "0"),
+                   V(r.id, "deviation", "TestStartsAtDirectiveAddress", "test " \o name \o ": the cpu was started in front of the test's first instruction")>>
+
+RECURSIVE JudgeTests(_, _, _, _)
+JudgeTests(r, names, k, n) ==
+  IF k > n THEN <<>> ELSE JudgeTest(r, names[k], r.obs.tests[k].verdict) \o JudgeTests(r, names, k + 1, n)
+
+(* the tests that finished before a crash: their failure reports were never printed, only ok / failed is known *)
+RECURSIVE PrefixVerdicts(_, _, _, _)
+PrefixVerdicts(r, names, k, n) ==
+  IF k > n THEN <<>>
+  ELSE LET T == Layout(r.prj, names[k])
+           id == Ideal(T)
+           ov == r.obs.tests[k].verdict IN
+       (IF T.ok /\ T.entry = T.entry0 /\ ((id.v = "passed" /\ ov # "ok") \/ (id.v = "failed" /\ ov # "failed"))
+          THEN <<V(r.id, "violation", "", "test " \o names[k] \o ": reported " \o ov \o " but the property says " \o id.v)>> ELSE <<>>)
+       \o PrefixVerdicts(r, names, k + 1, n)
+
+(* `mos test' panicked while running test number Len(obs.tests) + 1: the tests before it are judged as usual; the crash
+   itself is a recorded finding only under the witness matching the kind of panic, otherwise a violation *)
+JudgeCrash(r, names) ==
+  LET o == r.obs
+      k == Len(o.tests) + 1 IN
+  IF k > Len(names) \/ [i \in 1..Len(o.tests) |-> o.tests[i].name] # SubSeq(names, 1, k - 1)
+    THEN <<V(r.id, "violation", "", "mos test crashed (" \o o.panic \o ") outside the run of a test of the project")>>
+  ELSE LET T == Layout(r.prj, names[k])
+           w == IF T.ok THEN CrashWitness(T) ELSE "nolayout" IN
+       (IF w = "nolayout" \/ (w = "silent" /\ o.panic \in {"slice", "overflow"}) THEN <<>>
+        ELSE IF w = "slice" /\ o.panic = "slice" THEN <<V(r.id, "deviation", "RamWordAtTopPanics", "test " \o names[k] \o ": ram16($ffff) crashes mos test")>>
+        ELSE IF w = "overflow" /\ o.panic = "overflow" THEN <<V(r.id, "deviation", "EmulatorOverflowAtTopOfMemory", "test " \o names[k] \o ": instruction at the top of memory crashes mos test")>>
+        ELSE <<V(r.id, "violation", "", "test " \o names[k] \o ": mos test crashed (" \o o.panic \o ") instead of reporting a verdict")>>)
+       \o PrefixVerdicts(r, names, 1, k - 1)
 
 Judge(r) ==
   LET names == TestNames(r.prj.items, <<>>)
@@ -114,6 +151,7 @@ Judge(r) ==
   IF o.hung
     THEN (IF \E k \in 1..Len(names) : LET T == Layout(r.prj, names[k]) IN ~T.ok \/ Ideal(T).v = "unspec" THEN <<>>
           ELSE <<V(r.id, "violation", "", "mos test does not terminate although every test reaches a verdict")>>)
+  ELSE IF o.panic # "none" THEN JudgeCrash(r, names)
   ELSE IF o.buildFailed
     THEN (IF \A k \in 1..Len(names) : Layout(r.prj, names[k]).ok
             THEN <<V(r.id, "drift", "", "the project is rejected by the assembler but has a layout in the model")>> ELSE <<>>)
@@ -122,7 +160,7 @@ Judge(r) ==
   ELSE (IF (o.exit # 0) # (nfail > 0) THEN <<V(r.id, "violation", "", "exit status is non-zero iff a test failed: violated")>> ELSE <<>>)
     \o (IF ~o.summary \/ o.passed # nok \/ o.failed # nfail \/ o.result # (IF nfail > 0 THEN "FAILED" ELSE "ok")
           THEN <<V(r.id, "violation", "", "summary line does not count the reported verdicts")>> ELSE <<>>)
-    \o JudgeTests(r, names, 1)
+    \o JudgeTests(r, names, 1, Len(names))
 
 Init == l = 1 /\ bad = <<>>
 Step1 == l <= Len(Rec) /\ bad' = bad \o Judge(Rec[l]) /\ l' = l + 1
